@@ -35,14 +35,6 @@ class Lifecycle(Scenario):
         ctx = {"ra": ra, "rr": rr, "res": {}, "acc_assocs": [], "calls": []}
         acc_handlers = list(ra.handlers())
         req_handlers = list(rr.handlers())
-        if self.raising:
-            def boom(event):
-                raise RuntimeError("notification handler failure")
-
-            for name in self.raising:
-                acc_handlers.append((getattr(evt, name), boom))
-                req_handlers.append((getattr(evt, name), boom))
-
         def on_established(event):
             a = event.assoc
             ctx["acc_assocs"].append(a)
@@ -64,6 +56,16 @@ class Lifecycle(Scenario):
             return 0x0000
 
         acc_handlers.append((evt.EVT_C_ECHO, on_echo))
+        if self.raising:
+            # bound LAST: pynetdicom stops calling an event's remaining handlers
+            # after one raises, and the harness observes through handlers too
+            def boom(event):
+                if not getattr(self, "raising_disabled", False):
+                    raise RuntimeError("notification handler failure")
+
+            for name in self.raising:
+                acc_handlers.append((getattr(evt, name), boom))
+                req_handlers.append((getattr(evt, name), boom))
         scen.start_server(s, acc, acc_handlers, max_requests=1)
         res = ctx["res"]
 
